@@ -225,6 +225,11 @@ func (a *actor) act(point string, i int) {
 			ad := all[r.Intn(len(all))].Addr
 			routes := chainx.NodeRoutes(ad)
 			rt := routes[r.Intn(len(routes))]
+			if r.Chance(1, 2) { // mostly the single-validator route for a node address (fills the validator cache)
+				nodes := append(append([]chain.Key{}, a.e.w.Vals...), a.e.w.Servs...)
+				ad = nodes[r.Intn(len(nodes))].Addr
+				rt = chainx.NodeRoutes(ad)[0]
+			}
 			desc = fmt.Sprintf("%s@%d", rt.Path, h)
 			code = query(n, abci.RequestQuery{Path: rt.Path, Data: rt.Data, Height: h})
 		case "dispatch":
